@@ -287,3 +287,4 @@ class HistContainer(IndexedContainer):
         self._data = _new_data
         self._processed_entries = []
         self._unprocessed_entries = []
+        self._on_bin_contents_change()
